@@ -428,9 +428,16 @@ class HDF5DataFrame(DataFrame):
         final_renames = dict()
         intermediate_columns = OrderedDict()
 
+        # intermediate names must differ from every current name, every destination name
+        # and every intermediate name already handed out
+        reserved = set(self._columns.keys()).union(dict_.values())
+
         for k, f in self._columns.items():
             if k in dict_:
-                uname = get_unique_name(dict_[k], self._columns)
+                uname = dict_[k]
+                if uname in self._columns:
+                    uname = get_unique_name(uname, reserved)
+                    reserved.add(uname)
                 if uname != k:
                     final_renames[uname] = dict_[k]
 
